@@ -4,7 +4,7 @@
 //
 // input  : [ [isw maxStreams] [ step ... ] ]         step = [op a b c d]
 //
-//	op 1 HEADERS   a=stream id  b=END_STREAM  c=kind (0 POST request, 1 no pseudo-headers, 2 HEAD)  d=content-length (-1 none)
+//	op 1 HEADERS   a=stream id  b=END_STREAM  c=kind (0 POST, 1 no pseudo-headers, 2 HEAD, 3 CONNECT, 4 CONNECT+:path, 5 scheme ftp, 6 no :path, 7 upper-case field name; +10: block split over HEADERS+CONTINUATION)  d=content-length (-1 none)
 //	op 2 DATA      a=stream id  b=data octets c=padding (-1: not padded, else pad length 0..255)    d=END_STREAM
 //	op 3 RST       a=stream id  b=error code
 //	op 4 WINUPD    a=stream id  b=increment (>=1)
@@ -52,6 +52,7 @@ var h2metrics metrics.Metrics
 func Setup() {
 	setupOnce.Do(func() {
 		h2metrics.Init(bfe_http2.GetHttp2State(), "h2", 0)
+		bfe_http2.VerifC35Install()
 	})
 }
 
@@ -81,9 +82,10 @@ type conn struct {
 	done     chan struct{}
 	mu       sync.Mutex
 	handlers map[int]*hctl
-	known    map[int]bool // stream ids for which HEADERS were sent
+	known    map[int]bool // stream ids for which a handler was started
 	live     map[int]bool // handler started and stream believed open (no RST either way, no final response)
 	running  map[int]bool // handler started and has not returned
+	sc       *bfe_http2.VerifC35Conn
 	dead     bool
 	killed   bool // guarded by mu: command channels of late-registering handlers are created closed
 	pingN    uint64
@@ -242,7 +244,7 @@ func (cn *conn) encHeaders(kind int, clen int) []byte {
 	cn.hbuf.Reset()
 	w := func(k, v string) { cn.henc.WriteField(hpack.HeaderField{Name: k, Value: v}) }
 	switch kind {
-	case 0:
+	case 0, 7:
 		w(":method", "POST")
 		w(":scheme", "http")
 		w(":path", "/")
@@ -252,11 +254,30 @@ func (cn *conn) encHeaders(kind int, clen int) []byte {
 		w(":scheme", "http")
 		w(":path", "/")
 		w(":authority", "a")
+	case 3: // CONNECT: :authority only
+		w(":method", "CONNECT")
+		w(":authority", "a:1")
+	case 4: // CONNECT must not carry :path
+		w(":method", "CONNECT")
+		w(":authority", "a:1")
+		w(":path", "/")
+	case 5: // unknown scheme
+		w(":method", "POST")
+		w(":scheme", "ftp")
+		w(":path", "/")
+	case 6: // :path missing
+		w(":method", "POST")
+		w(":scheme", "http")
+		w(":authority", "a")
 	}
 	if clen >= 0 {
 		w("content-length", strconv.Itoa(clen))
 	}
-	w("x-t", "1")
+	if kind == 7 {
+		w("X-Bad", "1") // upper-case field name: rejected by the server's Framer (readMetaFrame)
+	} else {
+		w("x-t", "1")
+	}
 	return append([]byte(nil), cn.hbuf.Bytes()...)
 }
 
@@ -279,9 +300,16 @@ func (cn *conn) step(s []int64) {
 	op, a, b, c, d := int(s[0]), int(s[1]), int(s[2]), int(s[3]), int(s[4])
 	switch op {
 	case 1:
-		first := !cn.known[a]
-		cn.known[a] = true
-		cn.fr.WriteHeaders(bfe_http2.HeadersFrameParam{StreamID: uint32(a), BlockFragment: cn.encHeaders(c, d), EndStream: b != 0, EndHeaders: true})
+		first := !cn.known[a] // no handler was started for this id so far
+		frag := cn.encHeaders(c%10, d)
+		if c >= 10 && len(frag) >= 2 {
+			// same header block split over HEADERS + CONTINUATION
+			h := len(frag) / 2
+			cn.fr.WriteHeaders(bfe_http2.HeadersFrameParam{StreamID: uint32(a), BlockFragment: frag[:h], EndStream: b != 0, EndHeaders: false})
+			cn.fr.WriteContinuation(uint32(a), true, frag[h:])
+		} else {
+			cn.fr.WriteHeaders(bfe_http2.HeadersFrameParam{StreamID: uint32(a), BlockFragment: frag, EndStream: b != 0, EndHeaders: true})
+		}
 		cn.barrier()
 		if first && !cn.dead {
 			rst := false
@@ -293,6 +321,7 @@ func (cn *conn) step(s []int64) {
 			if !rst {
 				h := cn.ctl(a)
 				<-h.started
+				cn.known[a] = true
 				cn.running[a] = true
 				cn.live[a] = true
 			}
@@ -324,6 +353,35 @@ func (cn *conn) step(s []int64) {
 		if r == 0 && cn.live[a] {
 			cn.wait(func(e ev) bool { return (e.kind == 3 && e.val&1 == 1 || e.kind == 2) && e.sid == a })
 		}
+		cn.barrier()
+	case 10:
+		if !cn.running[a] || cn.sc == nil {
+			cn.cur = append(cn.cur, ev{6, a, -3})
+			cn.barrier()
+			break
+		}
+		h := cn.ctl(a)
+		r := cn.sc.Race(uint32(a), func() {
+			h.cmd <- hcmd{8, 0}
+			<-h.res
+		}, func() {
+			switch b {
+			case 3:
+				cn.fr.WriteRSTStream(uint32(a), bfe_http2.ErrCode(c))
+			case 4:
+				cn.fr.WriteWindowUpdate(uint32(c), uint32(d))
+			default:
+				cn.fr.WriteSettings(bfe_http2.Setting{ID: bfe_http2.SettingInitialWindowSize, Val: uint32(c)})
+			}
+		})
+		delete(cn.running, a)
+		delete(cn.live, a)
+		if r < 0 {
+			r -= 10 // schedule could not be produced: reported as a handler result <= -11
+		} else {
+			r = 0
+		}
+		cn.cur = append(cn.cur, ev{6, a, r})
 		cn.barrier()
 	case 9:
 		cn.hbuf.Reset()
@@ -387,6 +445,7 @@ func Run(in hv.Val) hv.Val {
 	cn.fr = bfe_http2.NewFramer(cEnd, cEnd)
 	cn.fr.AllowIllegalWrites = true
 	cn.fr.ReadMetaHeaders = hpack.NewDecoder(4096, nil)
+	cn.sc = bfe_http2.VerifC35Take()
 	go cn.reader()
 	io.WriteString(cEnd, bfe_http2.ClientPreface)
 	cn.fr.WriteSettings()
